@@ -122,6 +122,27 @@ func c09overrides() []c09override {
 			m.Functions = append(m.Functions, KV{"fz", "pk.FnInt"})
 			c.Params = append(c.Params, Param{"pz", "%fz()%"})
 		}},
+		{"parameter-later-mapping-larger", func(c *Cfg) { c.Params = append(c.Params, Param{"p9", "decoy"}) }, func(c *Cfg) {
+			c.Params = append(c.Params, Param{"p9", 99}, Param{"x1", 1}, Param{"x2", 2}, Param{"x3", 3}, Param{"x4", 4}, Param{"x5", 5})
+		}},
+		{"field-later-mapping-larger", sv(func(s *Service) { s.Fields = append(s.Fields, KV{"F1", "decoy"}) }), sv(func(s *Service) {
+			s.Fields = append(s.Fields, KV{"F1", "real"}, KV{"F2", 2}, KV{"F3", 3}, KV{"F4", 4})
+		})},
+		{"import-later-mapping-larger", mt(func(m *Meta) { m.Imports = append(m.Imports, KV{"pz", "fx/decoy"}) }), func(c *Cfg) {
+			m := metaIn(c)
+			m.Imports = append(m.Imports, KV{"pz", "fx/pk2"}, KV{"u1", "fx/a"}, KV{"u2", "fx/ab"}, KV{"u3", "fx/os"})
+			svcIn(c, "sz").Constructor = P("pz.New")
+		}},
+		{"function-later-mapping-larger", mt(func(m *Meta) { m.Functions = append(m.Functions, KV{"fz", "pk.Decoy"}) }), func(c *Cfg) {
+			m := metaIn(c)
+			m.Functions = append(m.Functions, KV{"fz", "pk.FnInt"}, KV{"g1", "pk.FnStr"}, KV{"g2", "pk.FnStr"}, KV{"g3", "pk.FnStr"}, KV{"g4", "pk.FnStr"}, KV{"g5", "pk.FnStr"})
+			c.Params = append(c.Params, Param{"pz", "%fz()%"})
+		}},
+		{"builtin-function-overridden", mt(func(m *Meta) { m.Functions = append(m.Functions, KV{"env", "pk.Decoy"}) }), func(c *Cfg) {
+			m := metaIn(c)
+			m.Functions = append(m.Functions, KV{"env", "pk.FnStr"})
+			c.Params = append(c.Params, Param{"pz", `%env("K")%`})
+		}},
 		{"pkg", mt(func(m *Meta) { m.Pkg = P("decoy") }), mt(func(m *Meta) { m.Pkg = P("gen") })},
 		{"container_type", mt(func(m *Meta) { m.ContainerType = P("Decoy") }), mt(func(m *Meta) { m.ContainerType = P("Real") })},
 		{"container_constructor", mt(func(m *Meta) { m.ContainerConstructor = P("NewDecoy") }), mt(func(m *Meta) { m.ContainerConstructor = P("NewReal") })},
@@ -252,7 +273,7 @@ func init() {
 	Register(&Check{
 		ID:    "C09",
 		Level: "exploration",
-		Rule: "(1) three base configurations of 8-10 atoms (service attributes incl. ordered calls/tags; meta + parameters; services + fields + decorators + version) x every assignment of the atoms to 3 files that respects the order of appended atoms: -o bytes equal the single-file form; (2) 18 overriding pairs (decoy in an earlier file, real value later; empty arguments do not replace) x 3 file placements; (3) file naming / pattern assignment: explicit paths in both orders, one glob, two globs, a directory glob whose lexical path order differs from directory order, uncleaned patterns; " +
+		Rule: "(1) three base configurations of 8-10 atoms (service attributes incl. ordered calls/tags; meta + parameters; services + fields + decorators + version) x every assignment of the atoms to 3 files that respects the order of appended atoms: -o bytes equal the single-file form; (2) 23 overriding pairs (incl. later mappings that are larger than everything merged before, and a user function named like a built-in) (decoy in an earlier file, real value later; empty arguments do not replace) x 3 file placements; (3) file naming / pattern assignment: explicit paths in both orders, one glob, two globs, a directory glob whose lexical path order differs from directory order, uncleaned patterns; " +
 			"(4) algebra on the real input.Merge: associativity for all triples and identity for all elements of a universe of 497 inputs (each attribute absent / v1 / v2, two attributes at a time; thorough: all triples, quick: all triples over the single-attribute elements). non-trivial = more than one file involved; distinct = distinct split / pair / triple",
 		Assumptions: []string{"the single-file equivalent is built from the abstract atoms (never by merging YAML); merged Input values are compared structurally, not distinguishing nil from empty collections"},
 		BudgetQuick: 280 * time.Second, BudgetThorough: 1500 * time.Second,
